@@ -667,9 +667,9 @@ class Torrent():
             raise error.PieceSizeError(piece_size_min)
         else:
             self._piece_size_min = int(piece_size_min)
-            # If a piece size is set, silently limit it to new minimum
-            if self.piece_size:
-                self.piece_size = max(self.piece_size_min, self.piece_size)
+        # If a piece size is set, silently limit it to new minimum
+        if self.piece_size:
+            self.piece_size = max(self.piece_size_min, self.piece_size)
 
     @property
     def piece_size_max(self):
@@ -689,9 +689,9 @@ class Torrent():
             raise error.PieceSizeError(piece_size_max)
         else:
             self._piece_size_max = int(piece_size_max)
-            # If a piece size is set, silently limit it to new maximum
-            if self.piece_size:
-                self.piece_size = min(self.piece_size_max, self.piece_size)
+        # If a piece size is set, silently limit it to new maximum
+        if self.piece_size:
+            self.piece_size = min(self.piece_size_max, self.piece_size)
 
     piece_size_min_default = 16 * 1024  # 16 KiB
     """
